@@ -48,6 +48,8 @@ func checkC16(c *Ctx) {
 	c.balancedSkeleton()
 	c.caterpillarSkeleton()
 	c.starSkeleton()
+	c.generatorCommands("GENCMD")
+	c.orientRule("ORIENT")
 	c.Floor("GF", 10)
 	c.Floor("PATH", 5)
 	c.Floor("LENGTH", 12)
